@@ -297,9 +297,13 @@ class Lexer:
             )
         )
 
+        # Nested paths, in brackets, must be closed before we return.
+        depth = len(self.path_stack)
+
         if carry:
             self.path_stack[-1].path.append(self.source[self.start : self.pos])
             self.start = self.pos
+            self.path_stack[-1].stop = self.pos
 
         while True:
             c = self.next()
@@ -310,6 +314,8 @@ class Lexer:
             if c == ".":
                 if self.peek() == ".":  # probably a range expression delimiter
                     self.backup()
+                    if len(self.path_stack) != depth:
+                        self.error("unbalanced brackets")
                     return
 
                 self.ignore()
@@ -324,6 +330,7 @@ class Lexer:
                         self.path_stack[-1].path.append(to_int(match.group()))
                         self.pos += match.end() - match.start()
                         self.start = self.pos
+                        self.path_stack[-1].stop = self.pos
                     else:
                         self.error("array indexes must use bracket notation")
                 else:
@@ -393,12 +400,15 @@ class Lexer:
                     )
                     self.pos += match.end() - match.start()
                     self.start = self.pos
+                    self.path_stack[-1].stop = self.pos
                 elif self.peek() == "]":
                     self.error("empty bracketed segment")
                 else:
                     self.error("expected a string, index or property name")
             else:
                 self.backup()
+                if len(self.path_stack) != depth:
+                    self.error("unbalanced brackets")
                 return
 
     def accept_string(self, *, quote: str) -> None:
